@@ -36,15 +36,24 @@ _REF: dict = {}
 
 def run_both(h, key, fn, observe):
     """Run *fn* under the adversarial chooser; compare with the reference."""
+    import inspect
+    # (the reference cache is per process: key it by the calling contract too)
+    key = (type(inspect.currentframe().f_back.f_locals.get("self")).__name__,
+           key)
     if key not in _REF:
         ch0 = OneSiteAtATime(h.ctx, enabled=False)
         h.interp.unordered_hook = ch0
-        _REF[key] = (observe(fn()), ch0.sites)
+        with h.interp.trampolines():
+            _REF[key] = (observe(fn()), ch0.sites)
     ref, nsites = _REF[key]
     ch = OneSiteAtATime(h.ctx)
     h.interp.unordered_hook = ch
     try:
-        got = observe(fn())
+        # (methods of repository mappers reached through pymbolic's native
+        # dispatch re-enter the interpreter, so that their set iterations are
+        # under the adversary as well)
+        with h.interp.trampolines():
+            got = observe(fn())
     except EngineSignal:
         raise
     except Exception as e:  # noqa: BLE001
@@ -209,13 +218,7 @@ class DetLoopy(Contract):
         h.interp.repo_prefixes = (*h.interp.repo_prefixes, "pytools.graph")
         outs = pt.make_dict_of_named_arrays(prog_outputs(inst["kind"]))
 
-        def obs(bp):
-            knl = bp.program.default_entrypoint
-            return ([str(i) for i in knl.instructions],
-                    [a.name for a in knl.args],
-                    list(knl.temporary_variables),
-                    [str(d) for d in knl.domains],
-                    list(bp.bound_arguments))
+        from pyvc.det_programs import observe_kernel as obs
         run_both(h, inst["label"], lambda: h.call(pt.generate_loopy, outs),
                  obs)
 
